@@ -101,7 +101,9 @@ def finish(ctx, t0, level_explanation, assumptions, seed=0):
             new_viol.append(r)
     broken = [(rule, found, fl) for (rule, found, fl) in ctx.floors if found < fl]
     rc = 0
-    repdir = os.path.join(VERIF, 'build', 'reports', prop)
+    selftest = bool(os.environ.get('VERIF_SELFTEST'))
+    # runs on scratch copies (self-test) leave /verif/evidence and the report directory alone
+    repdir = os.path.join(os.environ['VERIF_REPO'], 'reports', prop) if selftest and os.environ.get('VERIF_REPO') else os.path.join(VERIF, 'build', 'reports', prop)
     os.makedirs(repdir, exist_ok=True)
     for r in new_viol:
         h = hashlib.sha1(r.key.encode()).hexdigest()[:12]
@@ -159,8 +161,11 @@ def finish(ctx, t0, level_explanation, assumptions, seed=0):
         'wall_s': round(time.time() - t0, 3),
         'violations': len(new_viol),
     }
-    os.makedirs(os.path.join(VERIF, 'evidence'), exist_ok=True)
-    json.dump(ev, open(os.path.join(VERIF, 'evidence', prop + '.json'), 'w'), indent=1, default=str)
+    if not selftest:
+        os.makedirs(os.path.join(VERIF, 'evidence'), exist_ok=True)
+        tmp = os.path.join(VERIF, 'evidence', '.%s.%d.tmp' % (prop, os.getpid()))
+        json.dump(ev, open(tmp, 'w'), indent=1, default=str)
+        os.replace(tmp, os.path.join(VERIF, 'evidence', prop + '.json'))
     print('%s: %d rule instances, %d discharged, %d violations (%d known), %d notes, %.1fs -> exit %d' % (
         prop, len(ctx.results), len(oks), len(viol), len(viol) - len(new_viol), len(notes), time.time() - t0, rc))
     return rc
